@@ -30,8 +30,9 @@ def data_memory(name="L", word_contained=False):
 
 
 def word_memory(name="MW"):
-    """backing store of the cache proofs.  Symbolically: S-MEM kept per word.  Natively (replay): the real flat Memory
-    filled from the model's words (adjudication mode: lazily materialised bytes)."""
+    """backing store of the cache proofs.  Symbolically: S-MEM kept per word.  Natively: the real flat Memory, filled
+    from the model's words (replay of a counter-model) and/or bytes (adjudication: lazily materialised bytes; replay of
+    an input found by adjudication: those bytes)."""
     if native():
         from pyvc import api as _api
         m = Memory(AddressingType.BYTE, 32, True, range(LO, TOP))
@@ -43,6 +44,7 @@ def word_memory(name="MW"):
         for w in words:
             for k in range(4):
                 m.memory_file[w + k] = UInt8((int(words[w]) >> (8 * k)) & 255)
+        m.memory_file.update(sym_map(name + "_bytes", UInt8))
         return m
     return SpecWordMemory(sym_map(name, UInt32), LO)
 
